@@ -340,12 +340,12 @@ def ref_absent(t, val, steps):
         elif k == "enum":
             fs = S.retained(t)
             f = fs[idx]
-            if f.get("deny") or f.get("get") or f.get("getmut") or f.get("val") or f.get("defer"):
-                return None
             d += 1
             i += 1
             if val[1] != idx:
-                return ("absent", d)
+                return ("absent", d)      # the absent-variant check comes before the variant's deny / accessors
+            if f.get("deny") or f.get("get") or f.get("getmut") or f.get("val") or f.get("defer"):
+                return None
             t, val = f["t"], val[2]
             continue
         elif k == "arr":
